@@ -13,7 +13,9 @@ func NewReconcilerForVerif(transactions transactionstore.Store, proposals propos
 }
 
 // NewWatcherForVerif exposes the watcher
-func NewWatcherForVerif(transactions transactionstore.Store) *Watcher { return &Watcher{transactions: transactions} }
+func NewWatcherForVerif(transactions transactionstore.Store) *Watcher {
+	return &Watcher{transactions: transactions}
+}
 
 // NewProposalWatcherForVerif exposes the watcher
 func NewProposalWatcherForVerif(proposals proposalstore.Store) *ProposalWatcher {
